@@ -1435,13 +1435,14 @@ fn modulus_strategy() -> impl Strategy<Value = Modulus> {
 fn curve_strategy() -> BoxedStrategy<CurveSpec> {
     prop_oneof![
         // the fall-back family of ecm(): (3k+5, 4k+5), k = seed mod 2^24
-        3 => (0u64..1 << 24).prop_map(|k| CurveSpec::edwards(3 * k + 5, 4 * k + 5)),
+        // (k = 0 gives x = y = 5, which from_point's callers never pass: ecm() uses seeds >= 2)
+        3 => (1u64..1 << 24).prop_map(|k| CurveSpec::edwards(3 * k + 5, 4 * k + 5)),
         // any generator accepted by from_point
         2 => (2u64..1 << 31, 2u64..1 << 31).prop_map(|(x, y)| {
-            if x == y { CurveSpec::edwards(x, y + 1) } else { CurveSpec::edwards(x, y) }
+            if x == y { CurveSpec::edwards(x, if y + 1 < 1 << 31 { y + 1 } else { y - 1 }) } else { CurveSpec::edwards(x, y) }
         }),
         1 => (2u64..40, 2u64..200).prop_map(|(x, y)| {
-            if x == y { CurveSpec::edwards(x, y + 1) } else { CurveSpec::edwards(x, y) }
+            if x == y { CurveSpec::edwards(x, if y + 1 < 1 << 31 { y + 1 } else { y - 1 }) } else { CurveSpec::edwards(x, y) }
         }),
         // Suyama-11: seeds as ecm128 (2..), as ecm() for small inputs (16-bit) and 32-bit
         3 => (2u32..200).prop_map(CurveSpec::suyama),
